@@ -104,15 +104,17 @@ def run_history(fx, slog, rl, rec, r, retries, ncalls, script, sername, hh):
     rl.set_script(script)
     p = P.client.Proxy("PYRO:svc@127.0.0.1:%d" % rl.port)
     p._pyroSerializer = sername
-    p._pyroTimeout = 0.15
+    p._pyroTimeout = 5.0           # the first connect gets a generous timeout (a slow handshake on a loaded machine is not a verdict) ...
     p._pyroMaxRetries = retries
     p._pyroBind()
+    p._pyroTimeout = 0.15          # ... the calls a short one, so that lost replies surface quickly
     p._pyroSeq = 0xFFF0
     p._pyroMaxRetries = retries
     tokens = []
     kinds = []
     nonces = []
     ok = True
+    durations = {}
     reuse_batch = r.random() < 0.5          # half of the histories send all their batches through ONE BatchProxy (documented re-use)
     shared_batch = P.client.BatchProxy(p)
     clean = True       # the previous call met no fault and got its own answer: nothing stale can be in flight
@@ -128,6 +130,7 @@ def run_history(fx, slog, rl, rec, r, retries, ncalls, script, sername, hh):
             seq_before = p._pyroSeq
             applied_before = len(rl.applied)
             outcome = None
+            t_call = time.monotonic()
             try:
                 if kind == "echo":
                     outcome = ("ret", p.echo(tok))
@@ -169,6 +172,7 @@ def run_history(fx, slog, rl, rec, r, retries, ncalls, script, sername, hh):
                 outcome = ("exc", x.args)
             except Exception as x:
                 outcome = ("other", repr(x))
+            durations[tok] = time.monotonic() - t_call
             if p._pyroSeq < seq_before:
                 rec.count("seq_wraps")
             if kind in ("oneway", "batchow") and outcome and outcome[0] == "ret":
@@ -292,7 +296,11 @@ def run_history(fx, slog, rl, rec, r, retries, ncalls, script, sername, hh):
             rec.violation("too-many-attempts", "token %s (%s): %d attempts with MAX_RETRIES=%d" % (tok, kind, rc, retries), dict(pay, kinds=kinds))
             return
         nfaults = sum(1 for a in rl.applied if a[0] == tok and a[1] not in ("deliver", "deliver-oneway", "tokenless-request"))
-        if rc - 1 > nfaults:
+        if rc - 1 > nfaults and durations.get(tok, 0.0) >= 0.14 * (rc - 1 - nfaults):
+            # each unexplained extra attempt took at least one client timeout (0.15 s): a slow delivery on a loaded machine may have timed out
+            # at the client although the relay injected nothing. Allowed (never a verdict on speed), counted
+            rec.count("retries_explained_by_slow_delivery")
+        elif rc - 1 > nfaults:
             rec.violation("retried-without-communication-failure", "token %s (%s): %d requests were sent although only %d of them met a transport fault; a call whose own invocation answered must not be repeated" % (
                 tok, kind, rc, nfaults), dict(pay, kinds=kinds))
             return
